@@ -3396,3 +3396,33 @@ for _i, (_rx, _fn) in enumerate(PATTERN_PRIMS):
         PATTERN_PRIMS[_i] = (_rx, lambda ex, a: iter_next(ex, a[0]))
 
 DROP_HOOKS['IgnoredAny'] = lambda ex, v: None
+
+
+@pattern(r'^<(digraph|ungraph|sync_digraph|sync_ungraph)::node::(Node|Edge) as PartialEq>::ne$')
+def _(ex, a):
+    return not value_eq(ex, a[0], a[1])
+
+
+@pattern(r'^<.* as Iterator>::map_while$')
+def _(ex, a):
+    # map_while(f): yields f(x) while it is Some, ends at the first None
+    out = []
+    c = Cell(a[0])
+    while True:
+        r = iter_next(ex, Ref(c))
+        if r.variant == 0:
+            break
+        o = ex.call_closure(a[1], [r.f[0]])
+        if o.variant == 0:
+            # std stops here; the rest of the underlying iterator is dropped with it
+            for rest in drain(ex, c.v):
+                ex.drop(rest)
+            break
+        out.append(o.f[0])
+    return Agg('VecIntoIter', out)
+
+
+@pattern(r'^<.*\{closure@.*\} as (Fn|FnMut|FnOnce)>::(call|call_mut|call_once)$')
+def _(ex, a):
+    # a closure value called through the Fn* traits (`let f = |..| ..; f(x)`)
+    return ex.call_closure(a[0], a[1].f)
